@@ -406,8 +406,25 @@ class C06(PropertyCheck):
                  "identities over C for every angle and strength; label rule for every chain length; composition with the "
                  "transpilation theorem (C13/C03/C07) and disjoint-support commutation; instruction-level correspondence with "
                  "the implementation and exact-unitary comparison with run_analytically")
-    level_text = ""
-    level_note = ""
+    level_text = ("Lean 4 theorems about the regenerated formulas/tables of SpinChainCompiler, generate_pulse_shape and "
+                  "SpinChainModel and the hand model of the compiler stage: for every real angle and every non-zero strength the "
+                  "compiled RX/RZ pulse has the ideal propagator R(theta) (area theta/4pi, sign and magnitude of the coefficient, "
+                  "duration; theta = 0 gives duration 0); the exchange pulses of area -1/8, -1/16 give ISWAP, SQRTISWAP (generated "
+                  "and exact library matrices); for every chain length >= 2, both topologies and every two distinct qubits the "
+                  "chosen coupling label connects the gate's qubits iff they are coupled (counter-example for non-neighbours); the "
+                  "reported global phase is the sum of the GLOBALPHASE gates of the transpiled circuit; end_to_end_partial: for every "
+                  "N, topology, angle valuation, strength vector and accepted circuit, e^{i*phase} x product of the instructions' "
+                  "ideal propagators = circuit unitary, in circuit order and in every scheduled time order respecting the "
+                  "dependencies, composed from the transpilation theorem (C13/C03/C07), the calibration theorems and "
+                  "disjoint-support commutation. Partial: ideal propagators of constant segments are the two trusted closed forms; "
+                  "the step from the instruction list to the slice product of run_analytically (C12 + C14 + expm) is compared "
+                  "numerically (1e-9) on every run; hypotheses: no gate on more than two qubits unless transpile pre-decomposes them "
+                  "(C13-1, applied), positive instruction durations unless compile drops zero-duration instructions (C06-2), the "
+                  "routing stage over C (RouteStageDen), PHASEGATE at multiples of pi/4.")
+    level_note = ("Trusted: Lean kernel (propext, Classical.choice, Quot.sound); the closed forms exp(-i phi P) and exp(-i phi (XX+YY)) "
+                  "as definitions (shown to be one-parameter groups with value 1 at 0); py/translate/spinchain.py (ast), "
+                  "cross-checked against the live compiler/model objects every run; the models of C13/C07/C03 and C05/C11 as composed "
+                  "in lean/Drv/SpinChain.lean; C12/C14 for concatenation and slice product; numpy/scipy expm; the harness.")
     trusted_base = [
         "Lean 4.33 kernel; axioms propext, Classical.choice, Quot.sound",
         "two analytic closed forms taken as the DEFINITION of the ideal propagator of a constant segment: "
@@ -418,7 +435,13 @@ class C06(PropertyCheck):
         "concatenation of the instructions into pulses and the slice product (their own theorems and correspondences)",
         "py/props/c06.py harness; numpy/scipy expm inside run_analytically (runtime numerics, 1e-9 band)",
     ]
-    assumptions = []
+    assumptions = ["hardware strengths are non-zero (the property says positive)",
+                   "circuits consist of library gates without classical controls and contain no measurement",
+                   "end_to_end_partial: hypothesis RouteStageDen (routing stage preserves denG, as in C13); PHASEGATE with a fixed "
+                   "angle is a multiple of pi/4 (C03's phOK); DepRespected is C11's dep_respected for the start times (not re-proved here)",
+                   "classes excluded from the oracle sweep exactly when the source has the defective shape: circuits with a gate on "
+                   "more than two qubits (transpile without pre-decomposition), circuits with a rotation by exactly 0 (compile keeps "
+                   "zero-duration instructions), circuits that need no pulse (load_circuit cannot store an empty pulse set)"]
     rule = ("case = (topology, chain length, schedule mode, hardware parameter vectors, gate list with placements and angles); "
             "distinct by canonical JSON; non-trivial = at least one pulse instruction is compiled or the load is refused")
 
